@@ -165,21 +165,106 @@ fn targeted() -> &'static Vec<Case> {
     })
 }
 
+/// Multi-level shapes an implementation might recognise and evaluate in one step (euclidean norm, expm1, log1p,
+/// fused multiply-add, modular power, midpoint, cancellations ...), over boundary operands, split at every inner node.
+/// A hole at an inner node keeps the values and destroys the shape.
+fn idioms() -> &'static Vec<Case> {
+    static CELL: std::sync::OnceLock<Vec<Case>> = std::sync::OnceLock::new();
+    CELL.get_or_init(|| {
+        const T: &[&str] = &[
+            "sqrt(X^2+Y^2)", "sqrt(X²+Y²)", "sqrt(X*X+Y*Y)", "(X^2+Y^2)^0.5", "sqrt(pow(X,2)+pow(Y,2))", "sqrt(X^2+Y^2+Z^2)", "sqrt(X^2-Y^2)", "abs(X^2+Y^2)",
+            "exp(X)-1", "e^X-1", "ln(1+X)", "ln(X+1)", "log(1+X)", "X*Y+Z", "Z+X*Y", "X*Y-Z", "Z-X*Y", "X^Y%Z", "pow(X,Y)%Z", "X*Y%Z", "(X+Y)%Z", "(X+Y)/2", "(X+Y)/2.0", "(X+Y)/Z", "X/Y*Y", "X*Y/Y", "X*Y/Z",
+            "X-X+Y", "X+Y-X", "X+Y-Y", "X*X", "X/X*Y", "sqrt(X)^2", "sqrt(X^2)", "sqrt(X²)", "abs(X)^2", "abs(X^2)", "abs(-X)", "-(-X)", "-(X-Y)", "1/(1/X)", "1/(X/Y)", "X^(-1)", "X^(0-1)", "X^(1/2)", "X^(1/3)", "X^(Y/Z)", "(X^Y)^Z", "X^(Y*Z)", "X^(Y+Z)", "X^Y*X^Z",
+            "cbrt(X^3)", "ln(e^X)", "ln(exp(X))", "exp(ln(X))", "e^ln(X)", "10^log(X)", "log(10^X)", "2^log(X,2)", "log(2^X,2)", "ln(X)/ln(Y)", "log(X)/log(Y)", "ln(X*Y)", "ln(X/Y)", "ln(X^Y)", "exp(X+Y)", "exp(X)*exp(Y)", "exp(X*Y)",
+            "sin(X)/cos(X)", "sin(X)^2+cos(X)^2", "cosh(X)^2-sinh(X)^2", "atan(Y/X)", "atan(X/Y)", "sin(X+Y)", "sin(X*pi)", "cos(X*pi)", "sin(X°)", "cos(2*X)", "sin(asin(X))", "asin(sin(X))", "tan(atan(X))",
+            "floor(X/Y)", "ceil(X/Y)", "trunc(X/Y)", "round(X/Y)", "floor(X+0.5)", "floor(X*Y)", "round(X*Y)", "X-Y*floor(X/Y)", "X/Y*Y+X%Y", "X-X/Y*Y", "X*Y/gcd(X,Y)", "gcd(X*Z,Y*Z)", "gcd(X+Y,Y)", "lcm(X,Y)*gcd(X,Y)",
+            "(X+1)!/X!", "X!/(X-1)!", "(X+Y)!", "(X-Y)!", "(X*Y)!", "min(X,Y)+max(X,Y)", "max(X,-X)", "min(max(X,Y),Z)", "max(min(X,Y),Z)", "avg(X,Y)*2", "avg(X+Y,Z)", "med(X*Y,Z,X)", "max(X+Y,Z)-min(X-Y,Z)",
+            "(X<<Y)>>Y", "(X>>Y)<<Y", "X&Y|Z", "X|Y&Z", "X&(X-1)", "X&(0-X)", "X|(X+1)", "(X|Y)-(X&Y)", "(X+Y)<<1", "1<<(X+Y)", "(X*2)>>1", "X*2^Y", "X/2^Y", "2^(X+Y)", "2^X*2^Y", "(0-1)^X", "(-1)^(X+Y)",
+            "sqrt(X)*sqrt(Y)", "sqrt(X*Y)", "sqrt(X)/sqrt(Y)", "sqrt(X/Y)", "sqrt(X+Y)", "sqrt(X-Y)", "X%Y%Z", "(X%Y+Y)%Y", "(0-X)%Y", "(X-Y)%Z", "(X*Y)%Y", "X*(0-1)", "(0-1)*X", "0-X", "0*X+Y", "X*0+Y", "(X-X)*Y", "X*1+Y", "X/1+Y", "X^1+Y", "X^0+Y", "(X+0)*Y",
+            "sgn(X)*abs(X)", "sgn(X*Y)", "abs(X)/X", "abs(X*Y)", "abs(X-Y)", "abs(X)-abs(Y)", "floor(X)+ceil(X)", "X-floor(X)", "X-trunc(X)", "floor(-X)", "ceil(-X)", "round(-X)", "round(X+Y)", "trunc(X*Y)", "floor(X)/Y", "floor(floor(X)/Y)",
+            "w(X*e^X)", "w(X)*e^w(X)", "ilog(X^Y,X)", "ilog(X*Y,Y)", "X^ilog(Y,X)", "pow(X,Y)*pow(X,Z)", "root(X^Y,Y)", "root(X,Y)^Y", "(X+Y)²", "(X-Y)²", "(X*Y)²", "(X+Y)³", "X²-Y²", "(X+Y)*(X-Y)", "X²+2*X*Y+Y²", "(X+Y)°", "(X*Y)rad",
+            "X(Y+Z)", "(X+Y)(X-Y)", "2(X+Y)", "(X+Y)pi", "-X^2", "-(X^2)", "(-X)^2", "-X²", "-(X²)", "(-X)²", "-X!", "-(X!)", "(X!)!", "(X²)!", "(X!)²",
+        ];
+        let mut out: Vec<Case> = Vec::new();
+        let mut seen = std::collections::HashSet::new();
+        for ev in Ev::ALL {
+            let xs: Vec<&str> = match ev {
+                Ev::I64 => vec!["0", "1", "2", "3", "7", "(0-3)", "20", "63", "2147483648", "3000000000", "3037000499", "3037000500", "9007199254740993", "4611686018427387904", "9223372036854775807"],
+                Ev::Num => vec!["0", "1", "2", "3", "2.0", "0.5", "(0-7)", "20", "0.0", "(-0.0)", "2147483648", "3037000499", "3037000500", "9007199254740993", "9223372036854775807", "9007199254740994.0", "170", "(1/0.0)"],
+                Ev::F64 => vec!["0", "(-0)", "1", "2", "3", "0.5", "(0-7)", "20", "0.1", "0.000000001", "9007199254740993", "94906267", "170", "709", "(10^308)", "(1/0)", "(0/0)"],
+                Ev::Dec => vec!["0", "1", "2", "3", "0.5", "(0-7)", "20", "0.1", "3.00", "27", "1000000000000000", "281474976710656", "79228162514264337593543950335", "0.0000000000000000000000000001"],
+                Ev::Cpx => vec!["0", "1", "2", "(0-1)", "0.5", "i", "(1+2i)", "(-0.5-2i)", "3", "(3+4i)", "20"],
+            };
+            let zs: Vec<&str> = match ev {
+                Ev::I64 => vec!["1", "2", "7", "9223372036854775807"],
+                Ev::Cpx => vec!["1", "2", "i"],
+                _ => vec!["1", "2", "0.5", "7"],
+            };
+            for t in T {
+                let (hy, hz) = (t.contains('Y'), t.contains('Z'));
+                for x in &xs {
+                    for y in if hy { xs.clone() } else { vec![""] } {
+                        for z in if hz { zs.clone() } else { vec![""] } {
+                            let text = t.replace('X', x).replace('Y', y).replace('Z', z);
+                            let tree = match accept(ev, &text) {
+                                Some(e) => e,
+                                None => continue,
+                            };
+                            let n = grammar::size(&tree);
+                            for k in 1..n {
+                                let mut picked: Option<E> = None;
+                                let mut counter = 0;
+                                let ctx = grammar::map_nodes(&tree, &mut counter, &mut |i, node| {
+                                    if i == k {
+                                        picked = Some(node);
+                                        E::Ans
+                                    } else {
+                                        node
+                                    }
+                                });
+                                let sub = match picked {
+                                    Some(E::Lit(_)) | Some(E::Const(_)) | None => continue,
+                                    Some(E::Group(_, inner)) if matches!(*inner, E::Lit(_) | E::Const(_)) => continue,
+                                    Some(sx) => sx,
+                                };
+                                if grammar::op_count(&sub) == 0 {
+                                    continue;
+                                }
+                                let (c, sb) = (grammar::render(&ctx), grammar::render(&sub));
+                                if seen.insert((ev, c.clone(), sb.clone())) {
+                                    let mut case = Case::new(ev, c, Val::default_for(ev));
+                                    case.aux = vec![sb];
+                                    out.push(case);
+                                }
+                            }
+                        }
+                    }
+                }
+            }
+        }
+        out
+    })
+}
+
 impl Prop for C20Prop {
     fn id(&self) -> &'static str {
         "C20"
     }
     fn rule(&self) -> String {
-        "Exhaustive targeted block: (a) the hole in every argument position of every function and on each side of every operator, with the subexpression ranging over non-literal spellings of values an implementation might special-case (0, 1, 2, -1, 0.5, 10, e, pi, inf, -0) and companion arguments from a boundary list; (b) every unary context (every arity-1 function, -@, @², @!, ⌊@⌋, ⌈@⌉, @°) over every binary operation a op b on a boundary operand list (values beyond 2^53, halves, scaled decimals). (c) every aggregate nested in every aggregate over zeros of every kind (0, 0.0, -0.0, Integer vs Float). Then `split`: one random expression over boundary operands split at a random inner node into (C, E); and random triples (C, E, q): C a well-formed expression with exactly one @ in operand or argument position (a random leaf of a random tree: operator sides, prefix/postfix operands, every argument index incl. aggregates, under brackets, base or exponent), E a well-formed expression of the same evaluator over boundary operands (NaN, +-inf, -0.0, Float vs Integer, scaled Decimals, i64 extremes via its own @ bound to q). Three public calls: v = eval(E,q); if Ok(v): eval(C[@:=(E)], q) must equal eval(C, v) - same Ok bits (NaNs identified, Number variant, Decimal value and scale) or Err in both. non-trivial = E has >=1 operator, C has >=1 operator, v is not the type's default; distinct by (evaluator,C,E,q).".into()
+        "Exhaustive targeted block: (a) the hole in every argument position of every function and on each side of every operator, with the subexpression ranging over non-literal spellings of values an implementation might special-case (0, 1, 2, -1, 0.5, 10, e, pi, inf, -0) and companion arguments from a boundary list; (b) every unary context (every arity-1 function, -@, @², @!, ⌊@⌋, ⌈@⌉, @°) over every binary operation a op b on a boundary operand list (values beyond 2^53, halves, scaled decimals). (c) every aggregate nested in every aggregate over zeros of every kind (0, 0.0, -0.0, Integer vs Float). (d) `idioms`: ~250 multi-level shapes an implementation might evaluate in one step (sqrt(X^2+Y^2), exp(X)-1, X*Y+Z, X^Y%Z, (X+Y)/2, X/Y*Y, ln(X)/ln(Y), (X<<Y)>>Y, -X^2 ...) over boundary operands (incl. the largest i64 whose square fits, 2^53+1, inf, NaN, -0, scaled decimals), split at every inner node. Then `split`: one random expression over boundary operands split at a random inner node into (C, E); and random triples (C, E, q): C a well-formed expression with exactly one @ in operand or argument position (a random leaf of a random tree: operator sides, prefix/postfix operands, every argument index incl. aggregates, under brackets, base or exponent), E a well-formed expression of the same evaluator over boundary operands (NaN, +-inf, -0.0, Float vs Integer, scaled Decimals, i64 extremes via its own @ bound to q). Three public calls: v = eval(E,q); if Ok(v): eval(C[@:=(E)], q) must equal eval(C, v) - same Ok bits (NaNs identified, Number variant, Decimal value and scale) or Err in both. non-trivial = E has >=1 operator, C has >=1 operator, v is not the type's default; distinct by (evaluator,C,E,q).".into()
     }
     fn subs(&self, tier: Tier) -> Vec<Sub> {
         vec![
             Sub { name: "targeted", kind: SubKind::Enum { count: targeted().len() as u64 } },
+            Sub { name: "idioms", kind: SubKind::Enum { count: idioms().len() as u64 } },
             Sub { name: "compose", kind: SubKind::Random { cases: tier.pick(500_000, 20_000_000), len: 200 } },
             Sub { name: "split", kind: SubKind::Random { cases: tier.pick(400_000, 20_000_000), len: 200 } },
         ]
     }
-    fn gen_enum(&self, _sub: &str, idx: u64, _tier: Tier) -> Option<Case> {
+    fn gen_enum(&self, sub: &str, idx: u64, _tier: Tier) -> Option<Case> {
+        if sub == "idioms" {
+            return idioms().get(idx as usize).cloned();
+        }
         targeted().get(idx as usize).cloned()
     }
     fn gen(&self, sub: &str, c: &mut dyn Choices) -> Option<Case> {
